@@ -338,6 +338,15 @@ func genC10(g *Gen) {
 		f := g.genAnyFrame(reg, true)
 		g.add("alias_enc " + f)
 		g.addf("inspect %s %s", g.key(), f)
+		if i%2 == 0 {
+			g.addf("alias_crypt %s %s", g.key(), f)
+		}
+	}
+	// application payloads of every length 0..64 (whole key-stream blocks included) through the in-place encryption
+	for n := 0; n <= 64; n++ {
+		for _, mt := range []int{2, 3} {
+			g.addf("alias_crypt %s %d 0 %s MAC %d 00000 %d 0 %d 1 D:%s", g.key(), mt, hx(r.Bytes(4)), r.U32(), r.U32Edge(), 1+r.Intn(223), hx(r.Bytes(n)))
+		}
 	}
 	for _, pn := range appPkgNames {
 		for up := 0; up < 2; up++ {
